@@ -744,3 +744,168 @@ package formula
 //@   requires source != nil && diagnostic != nil && (len(source.LineStarts) > 0 ==> starts(source.LineStarts, len(source.Text)))
 //@   assigns source.LineStarts
 //@   panics never
+
+// ---------------------------------------------------------------------------
+// Evaluator: values
+// ---------------------------------------------------------------------------
+
+// num(a): a formula number (a non-nil *decimal.Big); nval(a): its decimal value.
+//@ spec num(a any) bool := is(a, *decimal.Big) && refOf(a) > 0
+//@ spec nref(a any) *decimal.Big := as(a, *decimal.Big)
+//@ spec nval(a any) dv := nref(a).val
+
+//@ func newDecimalBig
+//@   tags [C04,C09]
+//@   panics never
+//@   ensures[C04] result != nil && fresh(result) && result.prec == 34 && result.val == dzero()
+
+// wfv: numbers are real objects (a typed nil *decimal.Big is not a supported data value).
+//@ spec wfv(a any) bool := is(a, *decimal.Big) ==> refOf(a) > 0
+// One notion of truthiness (C06), written from the property statement.
+//@ spec truthy(a any) bool := isNullAny(a) ? false : is(a, bool) ? as(a, bool) : is(a, string) ? len(as(a, string)) > 0 : num(a) ? (dcmp(nval(a), dzero()) != 0 && !dnan(nval(a))) : true
+//@ spec mkbool(b bool) any := box(b, bool)
+//@ spec mkstr(s string) any := box(s, string)
+//@ spec isstr(a any) bool := is(a, string)
+//@ spec sval(a any) string := as(a, string)
+//@ spec isbool(a any) bool := is(a, bool)
+//@ spec bval(a any) bool := as(a, bool)
+
+//@ func (*Runner).toBool
+//@   tags [C06,C03]
+//@   requires wfv(v)
+//@   panics never
+//@   ensures[C06] result == truthy(v)
+
+//@ func convToNumber
+//@   tags [C05,C04,C03,C18]
+//@   requires wfv(v)
+//@   panics never
+//@   ensures result != nil
+//@   ensures num(v) ==> result == nref(v)
+//@   ensures !num(v) ==> fresh(result) && result.prec == 34
+//@   ensures isstr(v) ==> (dvStrOK(sval(v)) ? result.val == dvStr(sval(v)) : dnan(result.val))
+//@   ensures isbool(v) ==> result.val == dvUint(bval(v) ? 1 : 0)
+//@   ensures !num(v) && !isstr(v) && !isbool(v) ==> (isNullAny(v) ? result.val == dzero() : dnan(result.val))
+
+//@ func convToString
+//@   tags [C05,C03,C18]
+//@   requires wfv(v)
+//@   panics never
+//@   ensures isstr(v) ==> result == sval(v)
+//@   ensures num(v) ==> result == dstr(nval(v))
+
+// Relational operators (C05): numeric order via the library comparison, strings byte-wise.
+//@ func (*Runner).resolveLessThanBinaryExpressino
+//@   tags [C05,C03]
+//@   requires wfv(v1) && wfv(v2)
+//@   panics never
+//@   ensures result1 == nil
+//@   ensures[C05] num(v1) && num(v2) ==> result0 == mkbool(dcmp(nval(v1), nval(v2)) < 0)
+//@   ensures[C05] isstr(v1) && isstr(v2) ==> result0 == mkbool(sval(v1) < sval(v2))
+
+//@ func (*Runner).resolveGreaterThanBinaryExpressino
+//@   tags [C05,C03]
+//@   requires wfv(v1) && wfv(v2)
+//@   panics never
+//@   ensures result1 == nil
+//@   ensures[C05] num(v1) && num(v2) ==> result0 == mkbool(dcmp(nval(v1), nval(v2)) > 0)
+//@   ensures[C05] isstr(v1) && isstr(v2) ==> result0 == mkbool(sval(v1) > sval(v2))
+
+//@ func (*Runner).resolveLessThanEqualsBinaryExpressino
+//@   tags [C05,C03]
+//@   requires wfv(v1) && wfv(v2)
+//@   panics never
+//@   ensures result1 == nil
+//@   ensures[C05] num(v1) && num(v2) ==> result0 == mkbool(dcmp(nval(v1), nval(v2)) <= 0)
+//@   ensures[C05] isstr(v1) && isstr(v2) ==> result0 == mkbool(sval(v1) <= sval(v2))
+
+//@ func (*Runner).resolveGreaterThanEqualsBinaryExpressino
+//@   tags [C05,C03]
+//@   requires wfv(v1) && wfv(v2)
+//@   panics never
+//@   ensures result1 == nil
+//@   ensures[C05] num(v1) && num(v2) ==> result0 == mkbool(dcmp(nval(v1), nval(v2)) >= 0)
+//@   ensures[C05] isstr(v1) && isstr(v2) ==> result0 == mkbool(sval(v1) >= sval(v2))
+
+// Arithmetic (C04): the library operation under the 34-digit context, operands in order,
+// into a fresh number; the operands are not written (empty assigns clause).
+//@ func (*Runner).resolvePlusBinaryExpression
+//@   tags [C04,C03,C07]
+//@   requires wfv(v1) && wfv(v2)
+//@   panics never
+//@   ensures result1 == nil
+//@   ensures[C04] num(v1) && num(v2) ==> num(result0) && fresh(nref(result0)) && nref(result0).prec == 34 && nval(result0) == dadd(nval(v1), nval(v2), 34)
+//@   ensures isstr(v1) && isstr(v2) ==> result0 == mkstr(sval(v1) ++ sval(v2))
+
+//@ func (*Runner).resolveMinusBinaryExpressino
+//@   tags [C04,C03,C07]
+//@   requires wfv(v1) && wfv(v2)
+//@   panics never
+//@   ensures result1 == nil
+//@   ensures[C04] num(v1) && num(v2) ==> num(result0) && fresh(nref(result0)) && nref(result0).prec == 34 && nval(result0) == dsub(nval(v1), nval(v2), 34)
+
+//@ func (*Runner).resolveAsteriskBinaryExpressino
+//@   tags [C04,C03,C07]
+//@   requires wfv(v1) && wfv(v2)
+//@   panics never
+//@   ensures result1 == nil
+//@   ensures[C04] num(v1) && num(v2) ==> num(result0) && fresh(nref(result0)) && nref(result0).prec == 34 && nval(result0) == dmul(nval(v1), nval(v2), 34)
+
+//@ func (*Runner).resolveSlashBinaryExpression
+//@   tags [C04,C03,C07]
+//@   requires wfv(v1) && wfv(v2)
+//@   panics never
+//@   ensures result1 == nil
+//@   ensures[C04] num(v1) && num(v2) ==> num(result0) && fresh(nref(result0)) && nref(result0).prec == 34 && nval(result0) == dquo(nval(v1), nval(v2), 34)
+
+//@ func (*Runner).resolvePercentBinaryExpression
+//@   tags [C04,C03,C07]
+//@   requires wfv(v1) && wfv(v2)
+//@   panics never
+//@   ensures result1 == nil
+//@   ensures[C04] num(v1) && num(v2) ==> num(result0) && fresh(nref(result0)) && nref(result0).prec == 34 && nval(result0) == drem(nval(v1), nval(v2), 34)
+
+// Selection operators (C06) hand back one of their operands unchanged.
+//@ func (*Runner).resolveAmpersandAmpersandBinaryExpression
+//@   tags [C06,C03]
+//@   requires wfv(v1) && wfv(v2)
+//@   panics never
+//@   ensures result1 == nil
+//@   ensures[C06] result0 == (truthy(v1) ? v2 : v1)
+
+//@ func (*Runner).resolveBarBarBinaryExpression
+//@   tags [C06,C03]
+//@   requires wfv(v1) && wfv(v2)
+//@   panics never
+//@   ensures result1 == nil
+//@   ensures[C06] result0 == (truthy(v1) ? v1 : v2)
+
+//@ func (*Runner).resolveExclamationUnaryExpression
+//@   tags [C06,C03]
+//@   requires wfv(v)
+//@   panics never
+//@   ensures[C06] (isbool(v) || num(v) || isnil(v)) ==> result1 == nil && result0 == mkbool(!truthy(v))
+//@   ensures result1 != nil ==> result0 == nil
+
+//@ func (*Runner).resolveExclamationExclamationUnaryExpression
+//@   tags [C06,C03]
+//@   requires wfv(v)
+//@   panics never
+//@   ensures[C06] result1 == nil && result0 == mkbool(truthy(v))
+
+// Equality (C05).
+//@ spec kind4(a any) bool := isNullAny(a) || isbool(a) || isstr(a) || (num(a) && !dnan(nval(a)))
+//@ spec strictEq(a any, b any) bool := (isNullAny(a) && isNullAny(b)) || (isbool(a) && isbool(b) && bval(a) == bval(b)) || (isstr(a) && isstr(b) && sval(a) == sval(b)) || (num(a) && num(b) && dcmp(nval(a), nval(b)) == 0)
+//@ spec sameKind(a any, b any) bool := (isNullAny(a) && isNullAny(b)) || (isbool(a) && isbool(b)) || (isstr(a) && isstr(b)) || (num(a) && num(b))
+
+//@ func (*Runner).valueEqualTo
+//@   tags [C05,C03]
+//@   requires wfv(v1) && wfv(v2)
+//@   panics never
+//@   ensures[C05] kind4(v1) && kind4(v2) ==> result == strictEq(v1, v2)
+
+//@ func (*Runner).valueLikeEqualTo
+//@   tags [C05,C03]
+//@   requires wfv(v1) && wfv(v2)
+//@   panics never
+//@   ensures[C05] kind4(v1) && kind4(v2) && sameKind(v1, v2) ==> result == strictEq(v1, v2)
